@@ -143,7 +143,15 @@ async fn execute_command(command: Command, frame: &Frame, store: &Store) -> Resu
     let store = store.clone();
     let frame = frame.clone();
 
+    #[cfg(xs_verif)]
+    crate::verif::expect_thread("cmd");
     tokio::task::spawn_blocking(move || {
+        #[cfg(xs_verif)]
+        let _verif_scope = crate::verif::thread_scope("cmd");
+        #[cfg(xs_verif)]
+        let (command, store, frame) = (command, store, frame);
+        #[cfg(xs_verif)]
+        crate::verif::point("cmd.begin", frame.id.to_u128());
         let base_meta = serde_json::json!({
             "command_id": command.id.to_string(),
             "frame_id": frame.id.to_string()
